@@ -21,6 +21,7 @@ type Engine struct {
 	RecvSites []*ssa.Call       // invoke ReceiveProbe
 	Stores    []*ssa.Store      // stores into elements of the slot table
 	Update    *ssa.Function     // function that holds the store, when not the root itself
+	Parallel  bool              // some function of the scope spawns goroutines: sender and receiver run concurrently
 	// TableFields: (struct type, field) pairs the slot table is kept in when it lives in a struct ("T.field")
 	TableFields map[string]bool
 }
@@ -145,6 +146,11 @@ func Engines(p *core.Prog) []*Engine {
 						}
 					}
 				}
+			}
+		}
+		for _, g := range e.Scope {
+			if len(spawnSites(g)) > 0 {
+				e.Parallel = true
 			}
 		}
 		if e.Results != nil {
